@@ -23,6 +23,9 @@ type SlotScope struct {
 	// Slots maps slot names to their content.
 	// Empty string key is the default slot.
 	Slots map[string]*SlotContent
+	// Outer is the slot scope that was current where this component instance was included.
+	// Supplied slot content belongs to the includer: a <slot> inside it is looked up there.
+	Outer *SlotScope
 }
 
 // NewSlotScope creates a new SlotScope for a component.
@@ -73,6 +76,10 @@ func (v *Vue) evalSlot(ctx VueContext, node *html.Node, slotScope *SlotScope) ([
 		if slotContent := slotScope.GetSlot(slotName); slotContent != nil {
 			// Found explicit slot content - evaluate it with the scoped props
 			result := []*html.Node{}
+
+			// The content was written by the includer, so a <slot> inside it refers to the includer's
+			// slots, not to this instance's own content again (which would never end).
+			ctx.SlotScope = slotScope.Outer
 
 			// If the slot content is a template with v-slot, evaluate it with the props
 			if slotContent.TemplateNode != nil {
